@@ -271,6 +271,7 @@ type Exec struct {
 	clockStrict     bool
 	inInit          map[*ssa.Package]bool
 	clock           *Term
+	pools           map[*Value][]Value
 	preemptBound    int
 	preemptions     int
 	clockConcrete   bool
